@@ -190,6 +190,7 @@ type Op struct {
 	Sels []Sel
 	// obs
 	Reload bool
+	Inv    bool // ask the model to evaluate the theorems' hypotheses (WF, Placed, Ranges) here
 	// load
 	Path string
 	// case
@@ -245,10 +246,14 @@ func (o *Op) Lines() []string {
 	case "reload":
 		return []string{"reload"}
 	case "obs":
+		l := "obs"
 		if o.Reload {
-			return []string{"obs rl"}
+			l += " rl"
 		}
-		return []string{"obs"}
+		if o.Inv {
+			l += " inv"
+		}
+		return []string{l}
 	case "q":
 		return []string{fmt.Sprintf("q one=%d sels=%s", b2i(o.One), selsString(o.Sels))}
 	case "dumpfile":
